@@ -26,6 +26,7 @@ import numpy as np
 
 from ..lib import core
 from ..lib.core import Failure, Disagreement
+from ..extract import upgradeshape as _shape
 
 PROP = "C18"
 LEAN_MODULE = "NixModel.Props.C18"
@@ -41,6 +42,9 @@ THEOREMS = [
     "Nix.C18.C18_safe_to_repeat",
     "Nix.C18.C18_content_partial",
     "Nix.C18.C18_content_counterexample",
+    "Nix.C18.C18_shape_collect",
+    "Nix.C18.C18_shape_tests",
+    "Nix.C18.C18_shape_conversion",
 ]
 ASSUMPTIONS = [
     "interruption points are those the property names: before a task and between individual property / dimension "
@@ -77,6 +81,14 @@ MANIFEST = {
     "technique": "Lean 4 proof (induction over step lists, erase-homomorphism, run invariants, sorted-permutation "
                  "uniqueness) with differential correspondence on real HDF5 files and an interruption sweep",
 }
+
+
+
+def extract(repo):
+    """nixio/cmd/upgrade.py -> NixModel/Generated/UpgradeShape.lean (shape of collect_tasks, process_tasks, the
+    tests and the rules of one conversion)"""
+    return _shape.extract(repo)
+
 
 VSTR = h5py.string_dtype()
 T0 = "20200101T000000"
